@@ -20,7 +20,13 @@ RULE = ("choice-tree exploration per family: single node (every mz config; devia
         "source, each operand's value x source, wrapper, opset, API, each option, entry form, value_info), "
         "producer->consumer pairs with the consumer in the live optimizer alphabet, pairs adjacent in a live rewrite "
         "rule pattern with operand values deviating, Shape->shape-op->shape-op triples, multi-input rule templates, "
-        "and every ONNX backend node-test model lifted (inputs->initializers ...). distinct_nontrivial = distinct "
+        "every ONNX backend node-test model lifted (inputs->initializers ...); plus one fully-constant (or runtime-input + "
+        "body-owned initializer) node kept alive by Where(runtime cond, v, v) inside every wrapper form incl. the composed "
+        "and repeated ones (two If/Loop/call instances with sibling bodies reusing inner names; constant-condition If "
+        "nested in a function / Loop body / If branch) x inline {T,F}; every config x Constant attribute form "
+        "(value_float(s)/value_int(s)/value_string(s), sparse_value); partial-evaluator op pairs at opsets 11/12/17; "
+        "string / bfloat16 / optional-typed configs; for ops with a partial evaluator the opset menu holds every version "
+        "at which the op's schema changed down to its first. distinct_nontrivial = distinct "
         "items whose original was admitted (ORT and onnx.reference agree) and whose optimized model was executed "
         "and compared")
 ASSUMPTIONS = ["onnxruntime 1.30 CPU with graph optimizations disabled and onnx.reference (onnx 1.22) define what a "
@@ -61,6 +67,8 @@ def _outcome(rec):
     if rec.get("raised"):
         return "api-raised"
     d = rec.get("diff")
+    if (rec.get("counts") or {}).get("optimized_runtimes_disagree_reference_matches_original") and not rec.get("c03"):
+        return "inconclusive:ort-and-reference-disagree-on-optimized:" + (d or "")[:60]
     return ("changed:" + d[:60]) if d else "unchanged"
 
 
@@ -102,7 +110,12 @@ def _key_for(item, built, rec):
     api = small.get("api", "optimize")
     diff_ops = set(x for part in (dsig or "").split("=>") for x in part.split(",") if x)
     params = optplan.nondefault_params(small, diff_ops)
-    tag = optplan.root_cause_tag(small, comp, dsig)
+    # C03 sees an invalid result as a model that no longer loads; the structural tags that C04 derives from the class of
+    # the validity problem may apply only when the independent validity check finds that class on the optimized model
+    param = "symptom:" + str(v2.get("symptom"))
+    if v2.get("symptom") == "optimized-fails" and r2.get("opt") is not None:
+        param = ";".join(optrun._classify_validity(p) for p in optrun.validity_problems(r2["opt"])) or param
+    tag = optplan.root_cause_tag(small, comp, dsig, param=param)
     if tag:
         return f"C03|not-equivalent|{comp if str(comp).startswith('rule:') else 'fold'}|{tag}", small, v2
     key = f"C03|not-equivalent|{comp if api in ('optimize', 'optimize_ir') or comp != 'pipeline' else api}|{dsig}"
